@@ -145,7 +145,12 @@ func VerifH_C08_TraceOrderByRangePlusFilterSelectExactly() {
 			op = modelv1.LogicalExpression_LOGICAL_OP_OR
 			want = zzverif.Or(lm, rm)
 			sigExtra = zzverif.Or(sigExtra, li.onSortTag || ri.onSortTag)
-			sigMissing = li.onSortTag != ri.onSortTag
+			// on the unchanged tree the spans lost are those that satisfy ONLY the sort-tag side
+			if li.onSortTag && !ri.onSortTag {
+				sigMissing = !rm
+			} else if ri.onSortTag && !li.onSortTag {
+				sigMissing = !lm
+			}
 		}
 		criteria = &modelv1.Criteria{Exp: &modelv1.Criteria_Le{Le: &modelv1.LogicalExpression{Op: op, Left: l, Right: r}}}
 	}
